@@ -5,7 +5,7 @@ From Coq Require Import String.
 From Coq Require Import List Ascii ZArith Bool Lia Sorting.Permutation.
 From CGV Require Import Base.PyBase Base.PyVal Base.NxGraph Resolve.Bonding Resolve.GraphOps Resolve.Pipeline Resolve.PipelineFull
      Resolve.MapProofs Resolve.CopyProofs Resolve.FragidProofs Resolve.NameProofs.
-From CGV Require Hydro.Hydrogens Hydro.Squash Stereo.EzImpl.
+From CGV Require Hydro.Hydrogens Hydro.Squash Stereo.EzImpl Stereo.EzProofs.
 Import ListNotations.
 Open Scope Z_scope.
 
@@ -207,5 +207,132 @@ Proof.
   assert (In k (node_keys (fo_meta fo))) as Hkm by (rewrite <- Hfk; apply in_map_iff; exists (k, g0); auto).
   unfold node_keys in Hkm. apply in_map_iff in Hkm as [mn [Ek Hmn]]. exists mn. split; [exact Hmn|].
   rewrite Ek, (fg_get_of_in k g0 fgs0); [|rewrite Hfk; exact Hm|exact Hg0].
+  destruct g0 as [|y t]; [discriminate En|now left].
+Qed.
+
+(** ---------------------------------------------------------------- no side hypothesis about the intermediate graphs *)
+(** networkx add_node / add_edge never duplicate a key *)
+Lemma nodup_snoc (l : list Z) x : NoDup l -> ~ In x l -> NoDup (l ++ [x]).
+Proof. intros Hl Hx. apply NoDup_app_intro; [exact Hl|repeat constructor; intros []|]. intros y Hy [<-|[]]. contradiction. Qed.
+Lemma has_node_false g k : has_node g k = false -> ~ In k (node_keys g).
+Proof. intros H Hin. apply gfind_has in Hin. congruence. Qed.
+Lemma add_node_nodup g k a : NoDup (node_keys g) -> NoDup (node_keys (add_node g k a)).
+Proof. intros H. rewrite keys_add_node. destruct (has_node g k) eqn:E; [exact H|]. apply nodup_snoc; [exact H|now apply has_node_false]. Qed.
+Lemma ensure_nodup g k : NoDup (node_keys g) ->
+  NoDup (node_keys (if has_node g k then g else g ++ [{| nk := k; na := []; nadj := [] |}])).
+Proof.
+  intros H. destruct (has_node g k) eqn:E; [exact H|]. unfold node_keys. rewrite map_app. cbn [map nk].
+  apply nodup_snoc; [exact H|now apply has_node_false].
+Qed.
+Lemma add_edge_nodup g u v d : NoDup (node_keys g) -> NoDup (node_keys (add_edge g u v d)).
+Proof. intros H. unfold add_edge. rewrite !keys_gupdate by reflexivity. now apply ensure_nodup, ensure_nodup. Qed.
+Lemma fold_nodup {A} (f : graph -> A -> graph) : (forall g x, NoDup (node_keys g) -> NoDup (node_keys (f g x))) ->
+  forall l g, NoDup (node_keys g) -> NoDup (node_keys (fold_left f l g)).
+Proof. intros Hf. induction l as [|x r IH]; cbn [fold_left]; intros g H; [exact H|]. apply IH, Hf, H. Qed.
+
+(** a coarse node's graph has distinct keys whatever the fragid lists look like *)
+Lemma frag_subgraph_nodup mol ns g : frag_subgraph mol ns = Ok g -> NoDup (node_keys g).
+Proof.
+  unfold frag_subgraph. destruct (GraphOps.fold_res _ ns gempty) as [g1|] eqn:E; cbn [bind]; [|discriminate].
+  intros H. apply ok_inj2 in H. subst g.
+  apply fold_nodup; [intros g x Hg; destruct (has_edge mol (fst x) (snd x)); [now apply add_edge_nodup|exact Hg]|].
+  assert (forall l acc g1, NoDup (node_keys acc) ->
+    GraphOps.fold_res (fun acc n => a <- node_attrs mol n ;; Ok (add_node acc n a)) l acc = Ok g1 -> NoDup (node_keys g1)) as Hl.
+  { induction l as [|n r IH]; intros acc g2 Ha H; cbn [GraphOps.fold_res] in H; [apply ok_inj2 in H; now subst|].
+    destruct (node_attrs mol n) as [a|]; cbn [bind] in H; [|discriminate H]. eapply IH; [|exact H]. now apply add_node_nodup. }
+  eapply Hl; [|exact E]. constructor.
+Qed.
+
+(** [annotate_groups] without the hypothesis on the fragid lists *)
+Theorem annotate_groups_any meta mol fgs : annotate_fragments meta mol = Ok fgs ->
+  NoDup (node_keys mol) -> NoDup (node_keys meta) ->
+  (forall g, In g (fraglist_of meta fgs) -> NoDup (snd g)) /\
+  shared_ok (fun k => node_get mol k (S "fragid")) [] (fraglist_of meta fgs).
+Proof.
+  intros H Hn Hm. unfold annotate_fragments in H. destruct (fragid_map mol) as [fm|] eqn:Ef; cbn [bind] in H; [|discriminate H].
+  assert (NoDup (map fst fm)) as Hfm by (rewrite (fragid_map_fst _ _ Ef); now apply gna_keys_nodup2).
+  assert (forall k g, In (k, g) fgs -> NoDup (node_keys g) /\ forall n, In n (node_keys g) <-> In n (members_of fm k)) as Hkeys.
+  { intros k g Hin. destruct (map_res_in _ _ _ _ H Hin) as [mn [_ Hx]].
+    destruct (frag_subgraph mol (members_of fm (nk mn))) as [g'|] eqn:Eg; cbn [bind] in Hx; [|discriminate Hx].
+    apply ok_inj2 in Hx. injection Hx as <- <-. split; [exact (frag_subgraph_nodup _ _ _ Eg)|exact (frag_subgraph_nodes _ _ _ Eg)]. }
+  split.
+  - intros [k ns] Hg. destruct (fraglist_in _ _ _ _ Hg) as [g [Hin [-> _]]]. cbn [snd]. exact (proj1 (Hkeys k g Hin)).
+  - apply shared_ok_intro. intros pre [k ns] post Eq n Hin [[]|[[k' ns'] [Hpre Hin']]]. cbn [snd] in *.
+    assert (In (k, ns) (fraglist_of meta fgs)) as G1 by (rewrite Eq; apply in_or_app; right; now left).
+    assert (In (k', ns') (fraglist_of meta fgs)) as G2 by (rewrite Eq; apply in_or_app; now left).
+    assert (k' <> k) as Nk.
+    { pose proof (fraglist_keys_nodup meta fgs Hm) as Nd. rewrite Eq, map_app in Nd. cbn in Nd.
+      intros ->. apply NoDup_remove_2 in Nd. apply Nd. apply in_or_app. left. apply in_map_iff. exists (k, ns'). auto. }
+    destruct (fraglist_in _ _ _ _ G1) as [g [Hg [-> _]]]. destruct (fraglist_in _ _ _ _ G2) as [g' [Hg' [-> _]]].
+    apply (proj2 (Hkeys k g Hg)) in Hin. apply (proj2 (Hkeys k' g' Hg')) in Hin'.
+    apply members_spec in Hin as [l [Hl1 Hk1]]. apply members_spec in Hin' as [l' [Hl2 Hk2]].
+    assert (l' = l) as -> by (eapply nodup_fst_unique; eauto).
+    destruct (fragid_map_in _ _ _ _ Ef Hl1) as [v [Hv El]].
+    unfold is_sh. rewrite (gna_node_get mol _ n v Hn Hv), (fsv_of_list v l El). f_equal. apply Nat.ltb_lt.
+    pose proof (two_members_length l (VInt k) (VInt k') Hk1 Hk2 ltac:(congruence)). lia.
+Qed.
+
+(** the sorted graph has distinct keys, unconditionally: relabel_copy only uses add_node / add_edge *)
+Lemma keys_set_nodes_from a d : forall g, node_keys (set_nodes_from g a d) = node_keys g.
+Proof. unfold set_nodes_from. induction d as [|kv r IH]; cbn [fold_left]; intros g; [reflexivity|]. now rewrite IH, keys_set. Qed.
+Lemma relabel_copy_nodup g m : NoDup (node_keys (relabel_copy g m)).
+Proof.
+  unfold relabel_copy. apply fold_nodup; [intros; now apply add_edge_nodup|].
+  apply fold_nodup; [intros h x Hh; now rewrite keys_gupdate by reflexivity|].
+  apply fold_nodup; [intros; now apply add_node_nodup|constructor].
+Qed.
+Lemma sort_nodup g h : sort_nodes_by_attr g = Ok h -> NoDup (node_keys h).
+Proof.
+  unfold sort_nodes_by_attr. destruct (sort_mapping g) as [m|]; cbn [bind]; [|discriminate].
+  destruct (GraphOps.map_res _ _) as [nd|]; cbn [bind]; [|discriminate]. intros H. apply ok_inj2 in H. subst h.
+  rewrite keys_set_nodes_from. apply relabel_copy_nodup.
+Qed.
+
+(** the elements that occur in a graph *)
+Definition elements_of (mol : graph) : list pystr :=
+  flat_map (fun n => match aget (S "element") (na n) with Some (VStr el) => [el] | _ => [] end) mol.
+Lemma elements_of_spec mol : elemsE (elements_of mol) mol.
+Proof.
+  intros k el H. unfold node_get in H. destruct (gfind k mol) as [n|] eqn:E; [|discriminate H].
+  apply gfind_in_graph in E. unfold elements_of. apply in_flat_map. exists n. split; [exact E|]. rewrite H. now left.
+Qed.
+
+(** the naming theorem for every returned all-atom step; what is left as hypothesis is about the INPUT (distinct coarse keys)
+    and the alphabet (an element symbol contains no digit) *)
+Theorem step_names_unique_any legacy fd prev car fo :
+  resolve_step_full legacy true fd prev car = Ok fo -> NoDup (node_keys prev) ->
+  (forall k el, node_get (fo_m6 fo) k (S "element") = Some (VStr el) -> digit_free el) ->
+  forall k g, In (k, g) (fo_fgs fo) -> NoDup (map (name_in (fo_mol fo)) (node_keys g)).
+Proof.
+  intros H Hp Hel. 
+  assert (NoDup (node_keys (fo_m6 fo)) /\ node_keys (fo_meta fo) = node_keys prev) as [Hn Hm].
+  { revert H. unfold resolve_step_full.
+    destruct (resolve_disconnected fd _) as [[m1 fg1]|]; cbn [bind]; [|discriminate].
+    destruct (bonding_step legacy true _ m1 fg1) as [[m2 fg2]|]; cbn [bind]; [|discriminate].
+    destruct (Squash.squash_atoms m2) as [m3|]; cbn [bind]; [|discriminate].
+    destruct (Hydrogens.rebuild_h_atoms_default m3 car) as [m4|]; cbn [bind]; [|discriminate].
+    destruct (sort_nodes_by_attr m4) as [m5|] eqn:E5; cbn [bind]; [|discriminate].
+    destruct (EzImpl.annotate_ez_isomers_cgsmiles m5) as [m6|] eqn:E6; cbn [bind]; [|discriminate].
+    destruct (annotate_fragments _ m6) as [f6|]; cbn [bind]; [|discriminate].
+    destruct (set_atom_names m6 _ f6) as [[m7 f7]|]; cbn [bind]; [|discriminate].
+    intros H. apply ok_inj2 in H. subst fo. cbn [fo_m6 fo_meta]. split; [|apply keys_set_nodes_from].
+    rewrite (proj2 (EzProofs.chiral_stays_annotate m5 m6 0 E6)). exact (sort_nodup _ _ E5). }
+  rewrite <- Hm in Hp.
+  assert (Forall digit_free (elements_of (fo_m6 fo))) as HE.
+  { apply Forall_forall. intros el Hin. unfold elements_of in Hin. apply in_flat_map in Hin as [n [Hn' Hin]].
+    destruct (aget (S "element") (na n)) as [[]|] eqn:Ea; try contradiction. destruct Hin as [<-|[]].
+    apply (Hel (nk n)). unfold node_get. now rewrite (gfind_in _ Hn n Hn'). }
+  intros k g Hg. destruct (aa_tail _ _ _ _ _ H) as [fgs0 [Ea Es]].
+  destruct (annotate_groups_any _ _ _ Ea Hn Hp) as [Hnd Hsh].
+  pose proof (names_unique_per_coarse_node _ (label_inj_list _ HE) _ _ _ _ _ Es Hnd (elements_of_spec _) Hsh) as U.
+  pose proof (set_atom_names_keys _ _ _ _ _ Es) as Hk. pose proof (frag_keys _ _ _ Ea) as Hfk.
+  assert (In (k, node_keys g) (fg_keys fgs0)) as Hin.
+  { rewrite <- Hk. unfold fg_keys. apply in_map_iff. exists (k, g). auto. }
+  unfold fg_keys in Hin. apply in_map_iff in Hin as [[k0 g0] [Eq Hg0]]. cbn [fst snd] in Eq. injection Eq as -> Eq2. rewrite <- Eq2.
+  destruct (node_keys g0) as [|x r] eqn:En; [constructor|]. rewrite <- En.
+  apply (U (k, node_keys g0)). unfold fraglist_of. apply in_flat_map.
+  assert (In k (node_keys (fo_meta fo))) as Hkm by (rewrite <- Hfk; apply in_map_iff; exists (k, g0); auto).
+  unfold node_keys in Hkm. apply in_map_iff in Hkm as [mn [Ek Hmn]]. exists mn. split; [exact Hmn|].
+  rewrite Ek, (fg_get_of_in k g0 fgs0); [|rewrite Hfk; exact Hp|exact Hg0].
   destruct g0 as [|y t]; [discriminate En|now left].
 Qed.
